@@ -215,6 +215,28 @@ def _run_book(orc, tick, trading, t0, ops):
                 b.modify_order(oid, new_price=price, new_vol=vol)
             orc.call("book_modify", id=oid, price=price, vol=vol)
             feat["cancel_or_modify"] += 1
+        elif kind == "modify_cur":
+            # modification that restates the order's current price and / or remaining volume
+            active = [o for o in before["orders"] if o[1] == 1]
+            if not active:
+                continue
+            _, ix, mode = op
+            o = active[(ix * len(active)) >> 16]
+            oid = o[8]
+            price = o[6] if mode in (0, 2) else None
+            vol = o[4] if mode in (1, 2) else None
+            now += 1
+            b.set_time(now)
+            orc.call("book_set_time", t=now)
+            if price is None:
+                b.modify_order(oid, new_vol=vol)
+            elif vol is None:
+                b.modify_order(oid, new_price=price)
+            else:
+                b.modify_order(oid, new_price=price, new_vol=vol)
+            orc.call("book_modify", id=oid, price=price, vol=vol)
+            feat["cancel_or_modify"] += 1
+            feat["restating_modifies"] = feat.get("restating_modifies", 0) + 1
         elif kind == "roundtrip":
             # snapshot written from Python loads in Rust; one written by Rust loads in Python
             _, pretty, direction = op
@@ -234,7 +256,7 @@ def _run_book(orc, tick, trading, t0, ops):
                     os.remove(path)
         compare(step, op)
     nontrivial = feat["trades"] >= 1 and feat["cancel_or_modify"] >= 1 and feat["asym"] >= 1
-    return nontrivial, {"book_sequences": 1, "book_calls": feat["calls"], "book_trades": feat["trades"], "book_error_paths": feat["errors"], "book_snapshot_roundtrips": feat["roundtrips"], "book_asymmetric_states": feat["asym"]}
+    return nontrivial, {"book_sequences": 1, "book_calls": feat["calls"], "book_trades": feat["trades"], "book_error_paths": feat["errors"], "book_snapshot_roundtrips": feat["roundtrips"], "book_asymmetric_states": feat["asym"], "book_modifies_restating_current_values": feat.get("restating_modifies", 0)}
 
 
 def price_st(tick):
@@ -244,19 +266,22 @@ def price_st(tick):
 def book_case_st():
     def ops_for(tick):
         good_price = st.integers(8, 14).map(lambda k: k * tick)
+        tight_price = st.integers(10, 12).map(lambda k: k * tick)
         off_price = st.integers(8, 14).map(lambda k: k * tick + 1) if tick > 1 else good_price
         op = st.one_of(
             st.tuples(st.just("place"), st.booleans(), st.integers(1, 12), st.integers(0, 9), st.one_of(st.none(), good_price, good_price, good_price, off_price, price_st(tick))),
             st.tuples(st.just("place"), st.booleans(), st.integers(1, 12), st.integers(0, 9), good_price),
+            st.tuples(st.just("place"), st.booleans(), st.integers(1, 6), st.integers(0, 9), st.one_of(st.none(), tight_price)),
             st.tuples(st.just("cancel"), st.integers(0, 65535)),
-            st.tuples(st.just("modify"), st.integers(0, 65535), st.one_of(st.none(), good_price), st.one_of(st.none(), st.integers(1, 14))),
+            st.tuples(st.just("modify"), st.integers(0, 65535), st.one_of(st.none(), good_price, tight_price), st.one_of(st.none(), st.integers(1, 14))),
+            st.tuples(st.just("modify_cur"), st.integers(0, 65535), st.integers(0, 2)),
             st.tuples(st.just("set_time"), st.integers(0, 50)),
             st.tuples(st.sampled_from(["enable", "disable"])),
             st.tuples(st.just("place_bad"), st.sampled_from(["vol", "trader", "price"]), st.sampled_from([-1, 2**32, 2**64, -(2**63)])),
             st.tuples(st.just("time_bad"), st.sampled_from([-1, 2**64])),
             st.tuples(st.just("roundtrip"), st.booleans(), st.integers(0, 1)),
         )
-        seed_orders = st.lists(st.tuples(st.just("place"), st.booleans(), st.integers(1, 12), st.integers(0, 9), good_price), min_size=3, max_size=8)
+        seed_orders = st.lists(st.tuples(st.just("place"), st.booleans(), st.integers(1, 12), st.integers(0, 9), st.one_of(good_price, tight_price)), min_size=3, max_size=8)
         return st.tuples(seed_orders, st.lists(op, min_size=4, max_size=32)).map(lambda t: t[0] + t[1])
 
     return st.integers(1, 10).flatmap(lambda tick: st.fixed_dictionaries({"tick": st.just(tick), "trading": st.sampled_from([True, True, True, False]), "t0": st.integers(0, 1000), "ops": ops_for(tick)}))
@@ -365,6 +390,24 @@ def _run_env(orc, case):
                     x.modify_order(oid, new_price=price, new_vol=vol)
             orc.call("env_modify", id=oid, price=price, vol=vol)
             feat["cancel_or_modify"] += 1
+        elif kind == "modify_cur":
+            active = [o for o in before["orders"] if o[1] == 1]
+            if not active:
+                continue
+            _, ix, mode = op
+            o = active[(ix * len(active)) >> 16]
+            oid = o[8]
+            price = o[6] if mode in (0, 2) else None
+            vol = o[4] if mode in (1, 2) else None
+            for x in (e, e2):
+                if price is None:
+                    x.modify_order(oid, new_vol=vol)
+                elif vol is None:
+                    x.modify_order(oid, new_price=price)
+                else:
+                    x.modify_order(oid, new_price=price, new_vol=vol)
+            orc.call("env_modify", id=oid, price=price, vol=vol)
+            feat["cancel_or_modify"] += 1
         elif kind == "enable":
             e.enable_trading()
             e2.enable_trading()
@@ -386,18 +429,21 @@ def _run_env(orc, case):
 def env_case_st():
     def ops_for(tick):
         good_price = st.integers(8, 14).map(lambda k: k * tick)
+        tight_price = st.integers(10, 12).map(lambda k: k * tick)
         off_price = st.integers(8, 14).map(lambda k: k * tick + 1) if tick > 1 else good_price
         op = st.one_of(
             st.tuples(st.just("place"), st.booleans(), st.integers(1, 12), st.integers(0, 9), st.one_of(st.none(), good_price, good_price, good_price, off_price)),
             st.tuples(st.just("place"), st.booleans(), st.integers(1, 12), st.integers(0, 9), good_price),
+            st.tuples(st.just("place"), st.booleans(), st.integers(1, 6), st.integers(0, 9), st.one_of(st.none(), tight_price)),
             st.tuples(st.just("cancel"), st.integers(0, 65535)),
-            st.tuples(st.just("modify"), st.integers(0, 65535), st.one_of(st.none(), good_price), st.one_of(st.none(), st.integers(1, 14))),
+            st.tuples(st.just("modify"), st.integers(0, 65535), st.one_of(st.none(), good_price, tight_price), st.one_of(st.none(), st.integers(1, 14))),
+            st.tuples(st.just("modify_cur"), st.integers(0, 65535), st.integers(0, 2)),
             st.tuples(st.just("step")),
             st.tuples(st.just("step")),
             st.tuples(st.sampled_from(["enable", "disable"])),
             st.tuples(st.just("place_bad"), st.sampled_from(["vol", "trader", "price"]), st.sampled_from([-1, 2**32, 2**64])),
         )
-        seed_orders = st.lists(st.tuples(st.just("place"), st.booleans(), st.integers(1, 12), st.integers(0, 9), good_price), min_size=3, max_size=8).map(lambda l: l + [("step",)])
+        seed_orders = st.lists(st.tuples(st.just("place"), st.booleans(), st.integers(1, 12), st.integers(0, 9), st.one_of(good_price, tight_price)), min_size=3, max_size=8).map(lambda l: l + [("step",)])
         return st.tuples(seed_orders, st.lists(op, min_size=4, max_size=32)).map(lambda t: t[0] + t[1])
 
     return st.integers(1, 10).flatmap(
@@ -433,7 +479,7 @@ def replay_runner(part, case):
 
 def main(tier):
     q = tier == "quick"
-    parts = [("orderbook-call-sequences", 400 if q else 4000, book_case_st(), run_book), ("stepenv-call-sequences", 300 if q else 3000, env_case_st(), run_env)]
+    parts = [("orderbook-call-sequences", 600 if q else 6000, book_case_st(), run_book), ("stepenv-call-sequences", 400 if q else 4000, env_case_st(), run_env)]
     return common.run_parts("C18", tier, parts, RULE, ASSUMPTIONS, replay_runner)
 
 
